@@ -86,3 +86,32 @@ pub fn enter_loader() -> Result<LoaderGuard, ()> {
     LOADER_DEPTH.with(|d| d.set(depth + 1));
     Ok(LoaderGuard(()))
 }
+
+thread_local! {
+    static EXPANSION_DEPTH: Cell<u32> = const { Cell::new(0) };
+    static MAX_EXPANSION_DEPTH: Cell<u32> = const { Cell::new(u32::MAX) };
+}
+
+/// Bound on the nesting of macro expansions (`u32::MAX` disables it).
+pub fn set_expansion_depth_limit(max: u32) {
+    MAX_EXPANSION_DEPTH.with(|d| d.set(max));
+    EXPANSION_DEPTH.with(|d| d.set(0));
+}
+
+pub struct ExpansionGuard(());
+
+impl Drop for ExpansionGuard {
+    fn drop(&mut self) {
+        EXPANSION_DEPTH.with(|d| d.set(d.get().saturating_sub(1)));
+    }
+}
+
+pub fn enter_expansion() -> Result<ExpansionGuard, ()> {
+    let depth = EXPANSION_DEPTH.with(|d| d.get());
+    if depth >= MAX_EXPANSION_DEPTH.with(|d| d.get()) {
+        EXHAUSTED.with(|e| e.set(true));
+        return Err(());
+    }
+    EXPANSION_DEPTH.with(|d| d.set(depth + 1));
+    Ok(ExpansionGuard(()))
+}
